@@ -721,6 +721,14 @@ def find_in_mro(mro: list, name: str):
 # functions
 # ------------------------------------------------------------------------------------------------
 
+def _is_literal(node) -> bool:
+    try:
+        ast.literal_eval(node)
+        return True
+    except Exception:
+        return False
+
+
 def function_table(repo):
     tree, src = _load(repo, "sqlframe/base/functions.py")
     table: dict[str, object] = {}
@@ -771,6 +779,9 @@ def function_table(repo):
             continue
         elif isinstance(st, ast.Assign) and dotted(st.targets[0]) == "logger":
             continue
+        elif isinstance(st, (ast.Assign, ast.AnnAssign)) and _is_literal(st.value) \
+                and all(isinstance(t_, ast.Name) for t_ in (st.targets if isinstance(st, ast.Assign) else [st.target])):
+            continue          # a module-level constant table (a literal): not a function, exports nothing callable
         else:
             raise Untranslatable(f"functions.py: top-level statement {type(st).__name__} at line {st.lineno}")
     for name in table:
